@@ -86,8 +86,11 @@ type State struct {
 	casDraws   []Term
 	preStmt    *Ghost
 	jsonMaps   map[string]int
+	regs       map[int]map[ssa.Value]Value
+	regsShared map[int]bool
 	bulk       []func(st *State, idx Term) Term // pointwise table definitions, instantiated per obligation
 	inst       map[string][]func(st *State, t Term) Term // universally quantified facts, instantiated per obligation on terms of a sort
+	bufResults  []bufResult
 	cursor      map[int]Term // current row (Skolem DocId) of each open cursor
 	lastCursor  Term
 	lastCursorDocs Term
@@ -109,8 +112,63 @@ func (st *State) addInst(sort *Sort, f func(st *State, t Term) Term) {
 	st.inst = n
 }
 
+// SSA registers are path state (a fork inside a loop must not see the other path's later iterations): they live in
+// the State, per frame, copy-on-write.
+func (st *State) newRegs(fr *Frame) {
+	if st.regs == nil {
+		st.regs = map[int]map[ssa.Value]Value{}
+		st.regsShared = map[int]bool{}
+	}
+	st.regs[fr.id] = make(map[ssa.Value]Value, 32)
+	delete(st.regsShared, fr.id)
+}
+
+func (st *State) rregs(fr *Frame) map[ssa.Value]Value {
+	if fr.regs != nil {
+		return fr.regs // scratch frame outside any path
+	}
+	if m, ok := st.regs[fr.id]; ok {
+		return m
+	}
+	st.newRegs(fr)
+	return st.regs[fr.id]
+}
+
+func (st *State) wregs(fr *Frame) map[ssa.Value]Value {
+	if fr.regs != nil {
+		return fr.regs
+	}
+	m, ok := st.regs[fr.id]
+	if !ok {
+		st.newRegs(fr)
+		return st.regs[fr.id]
+	}
+	if st.regsShared[fr.id] {
+		c := make(map[ssa.Value]Value, len(m)+8)
+		for k, v := range m {
+			c[k] = v
+		}
+		st.regs[fr.id] = c
+		delete(st.regsShared, fr.id)
+		return c
+	}
+	return m
+}
+
 func (st *State) clone() *State {
 	c := *st
+	if st.regs != nil {
+		c.regs = make(map[int]map[ssa.Value]Value, len(st.regs))
+		c.regsShared = make(map[int]bool, len(st.regs))
+		if st.regsShared == nil {
+			st.regsShared = map[int]bool{}
+		}
+		for k, v := range st.regs {
+			c.regs[k] = v
+			c.regsShared[k] = true
+			st.regsShared[k] = true
+		}
+	}
 	c.heap = make(map[int]Value, len(st.heap))
 	for k, v := range st.heap {
 		c.heap[k] = v
@@ -239,6 +297,7 @@ type Engine struct {
 	wantNowrap bool
 	lazyCells  map[string]int
 	reachCount map[string]int
+	byteLits   map[int64]bool
 	callbacksWriteDB bool
 	fnCache    map[string]*ssa.Function
 	allFns     map[*ssa.Function]bool
@@ -318,6 +377,9 @@ func (e *Engine) strLitDecls() string {
 	}
 	if len(names) > 1 {
 		fmt.Fprintf(&sb, "(assert (distinct %s))\n", strings.Join(names, " "))
+	}
+	for c := range e.byteLits {
+		fmt.Fprintf(&sb, "(declare-const byte!%d Bytes)\n", c)
 	}
 	return sb.String()
 }
